@@ -186,7 +186,9 @@ def run_two_tables(ctx, st):
             ev = record('x', 0)
             ev['dm']['seg'][0]['p'].update({'rs': 110, 't': [115], 'tn': 112, 'ty': 112})
             OsLogEvent.from_raw_log_event(ev, A)
-        lg = OsLogEvent.from_raw_log_event(record('y', 0), B)
+        rec_y = record('y', 0)
+        yw, yp = rec_y['dm']['seg'][0]['p']['w'], rec_y['dm']['seg'][0]['p']['p']
+        lg = OsLogEvent.from_raw_log_event(rec_y, B)
     except Exception as e:      # noqa
         __import__('vxlib.symx.core', fromlist=['x']).proxy_rejected(e)
         ctx.check('C16/two-tables/decodes', False, '%s: %s' % (type(e).__name__, e)); ctx.reach(); return
@@ -205,6 +207,7 @@ def run_two_tables(ctx, st):
         ctx.check(L + '/placeholder/tokens', ph.get('tokens') == [B[112], B[113]], repr(ph.get('tokens')))
         ctx.check(L + '/placeholder/type_namespace', ph.get('type_namespace') == B[113], repr(ph.get('type_namespace')))
         ctx.check(L + '/placeholder/type', ph.get('type') == B[114], repr(ph.get('type')))
+        ctx.check(L + '/placeholder/width-precision-of-its-own-record', And(ph.get('width') == yw, ph.get('precision') == yp))
         ar = s.get('arg', {})
         ctx.check(L + '/argument/object_representation', ar.get('object_representation') == B[115], repr(ar))
     ctx.reach()
